@@ -3,6 +3,7 @@ package main
 import (
 	"encoding/json"
 	"fmt"
+	"k8s.io/client-go/rest"
 	"os"
 	"path/filepath"
 	"sort"
@@ -99,7 +100,7 @@ func cloneChart(c *chart.Chart, dir string) (*chart.Chart, *chart.Chart) {
 func corrRender(seed uint64, n int, tier string, out string, replay string) {
 	m := StartModel()
 	defer m.Close()
-	rep := NewReport("C05", "render", seed, "case = generated chart (1-5 templates per chart using values, ranges over maps, include, tpl, toYaml, Files.Get/Glob/Lines, hooks, NOTES, up to two levels of subcharts) rendered 4 times sequentially, 4 times concurrently, under a changed environment and working directory, and from archive- and directory-loaded copies: manifests, hooks and notes must be byte-identical; the parse order of templates is tied to the model through duplicate `define`s (the last parsed wins); probes: env/expandenv undefined, getHostByName stubbed, Files cannot leave the chart; separate streams reproduce the known order dependences (sub-notes, AsConfig with duplicate base names) and the schema $ref to a host file; non-trivial = at least 2 templates; distinct = hash of chart")
+	rep := NewReport("C05", "render", seed, "case = generated chart (1-5 templates per chart using values, ranges over maps, include, tpl, toYaml, Files.Get/Glob/Lines, hooks, NOTES, up to two levels of subcharts) rendered 4 times sequentially, 4 times concurrently, under a changed environment and working directory, and from archive- and directory-loaded copies: manifests, hooks and notes must be byte-identical; the parse order of templates is tied to the model through duplicate `define`s (the last parsed wins); probes: env/expandenv undefined, getHostByName stubbed (plain and cluster-aware engines), Files cannot leave the chart; separate streams reproduce the known order dependences (sub-notes, AsConfig with duplicate base names) and the schema $ref to a host file; non-trivial = at least 2 templates; distinct = hash of chart")
 	tmp, _ := os.MkdirTemp("", "corr-render")
 	defer os.RemoveAll(tmp)
 	cwd, _ := os.Getwd()
@@ -291,6 +292,30 @@ func renderProbes(rep *Report, seed uint64) {
 	rep.H("probe:dns")
 	if err != nil || strings.TrimSpace(out) != `v: ""` {
 		rep.Issue(Issue{Kind: "monitor", Fingerprint: "C05:dns-reachable", What: "getHostByName resolves although EnableDNS is off", Impl: out + fmt.Sprint(err), Seed: seed})
+	}
+	// ... and through every way of making an engine that knows a cluster (the engines install/upgrade use when
+	// they may talk to the server): DNS stays off unless EnableDNS says otherwise
+	{
+		c := &chart.Chart{Metadata: &chart.Metadata{APIVersion: "v2", Name: "p", Version: "0.1.0"},
+			Templates: []*chart.File{{Name: "templates/x.yaml", Data: []byte(`v: "{{ getHostByName "localhost" }}"`)}}}
+		vals, _ := chartutil.ToRenderValues(c, map[string]any{}, chartutil.ReleaseOptions{Name: "r", Namespace: "n"}, nil)
+		cfg := &rest.Config{Host: "http://127.0.0.1:1"}
+		engines := map[string]func() (map[string]string, error){
+			"New":              func() (map[string]string, error) { return engine.New(cfg).Render(c, vals) },
+			"RenderWithClient": func() (map[string]string, error) { return engine.RenderWithClient(c, vals, cfg) },
+			"New+Strict":       func() (map[string]string, error) { e := engine.New(cfg); e.Strict = true; return e.Render(c, vals) },
+			"New+LintMode":     func() (map[string]string, error) { e := engine.New(cfg); e.LintMode = true; return e.Render(c, vals) },
+			"zero":             func() (map[string]string, error) { return engine.Engine{}.Render(c, vals) },
+		}
+		for _, name := range sortedKeys(engines) {
+			var files map[string]string
+			var err error
+			safely(func() { files, err = engines[name]() })
+			rep.H("probe:dns:" + name)
+			if err != nil || strings.TrimSpace(files["p/templates/x.yaml"]) != `v: ""` {
+				rep.Issue(Issue{Kind: "monitor", Fingerprint: "C05:dns-reachable", What: "getHostByName resolves although EnableDNS is off (engine made by " + name + ")", Impl: files["p/templates/x.yaml"] + fmt.Sprint(err), Seed: seed})
+			}
+		}
 	}
 	hostFile := "/etc/hostname"
 	for _, p := range []string{hostFile, "../../../../../../etc/hostname", "files/../../x", "/proc/self/environ"} {
